@@ -122,6 +122,7 @@ class CContext:
                 self.error("Type is incomplete, size unknown", typ)
             if typ.fields:
                 size = max(self.sizeof(part.typ) for part in typ.fields)
+                size += required_padding(size, self.alignment(typ))
             else:
                 size = 0
         elif isinstance(typ, types.EnumType):
@@ -215,11 +216,16 @@ class CContext:
             if kind == "struct":
                 bit_offset += bitsize
 
-        # TODO: should we take care here of maximum alignment as well?
         # Finally align at 8 bits:
         bit_offset += required_padding(bit_offset, 8)
         assert bit_offset % 8 == 0
         byte_size = bit_offset // 8
+
+        # The size of a struct / union is a multiple of its alignment, so
+        # that the elements of an array (and a member that follows a
+        # nested struct) stay aligned (C99 6.7.2.1 p15, trailing padding).
+        if typ.fields:
+            byte_size += required_padding(byte_size, self.alignment(typ))
         return byte_size, bit_offsets
 
     def get_field_offsets(self, typ):
